@@ -72,6 +72,19 @@ func (f *c02Each) Call(s *slip.Scope, args slip.List, depth int) slip.Object {
 	return nil
 }
 
+type c02EachEval struct {
+	slip.Function
+	got *[]string
+}
+
+func (f *c02EachEval) Call(s *slip.Scope, args slip.List, depth int) slip.Object {
+	*f.got = append(*f.got, slip.ObjectString(args[0]))
+	if l, ok := args[0].(slip.List); ok && len(l) == 3 && l[0] == slip.Symbol("setq") {
+		s.Eval(l, depth+1)
+	}
+	return nil
+}
+
 func c02Status(o h.Outcome) string {
 	switch {
 	case o.OK():
@@ -193,6 +206,18 @@ func c02(args []string) {
 				f := &c02Each{got: &objs}
 				f.Self = f
 				slip.ReadStreamEach(&c02Chunker{data: data, cuts: st.Cuts, eofWith: st.EOFWith}, s, f)
+			case "each-eval":
+				// read-each with a consumer that evaluates every form as it arrives (a form may set *read-base* or the float
+				// format): what the rest of the text is read as does not depend on where the pieces of the stream end
+				f := &c02EachEval{got: &objs}
+				f.Self = f
+				func() {
+					defer func() {
+						s0.Set(slip.Symbol("*read-base*"), slip.Fixnum(10))
+						s0.Set(slip.Symbol("*read-default-float-format*"), slip.Symbol("double-float"))
+					}()
+					slip.ReadStreamEach(&c02Chunker{data: data, cuts: st.Cuts, eofWith: st.EOFWith}, s0, f)
+				}()
 			default:
 				panic("unknown entry " + st.Entry)
 			}
